@@ -108,6 +108,9 @@ pub struct Case {
     pub c0_layout: Layout,
     #[serde(default)]
     pub query_layout: Layout,
+    /// restarts sub-check: largest n_runs examined through `fit_with(None, ..)` (0 = not examined)
+    #[serde(default)]
+    pub incr_runs: usize,
 }
 
 #[derive(Debug, Clone, Serialize, Deserialize)]
@@ -291,7 +294,7 @@ pub fn assign_case(tier: Tier) -> impl Strategy<Value = Case> {
                 2 => Init::Para,
                 _ => Init::Precomputed(build_c0(&raw, &data.rows, k, p)),
             };
-            Case { data, k, metric, init, max_iter, tol, n_runs, seed, queries: cut(q, p), c0_layout, query_layout }
+            Case { data, k, metric, init, max_iter, tol, n_runs, seed, queries: cut(q, p), c0_layout, query_layout, incr_runs: 0 }
         })
 }
 
@@ -304,7 +307,7 @@ pub fn trajectory_case(tier: Tier) -> impl Strategy<Value = Case> {
             let p = data.rows[0].len();
             let k = k_of(kk, n);
             let init = Init::Precomputed(build_c0(&raw, &data.rows, k, p));
-            Case { data, k, metric, init, max_iter, tol, n_runs: 1, seed, queries: vec![], c0_layout, query_layout: Layout::RowMajor }
+            Case { data, k, metric, init, max_iter, tol, n_runs: 1, seed, queries: vec![], c0_layout, query_layout: Layout::RowMajor, incr_runs: 0 }
         },
     )
 }
@@ -312,7 +315,7 @@ pub fn trajectory_case(tier: Tier) -> impl Strategy<Value = Case> {
 /// restart case: seeded initialisers whose stream is a prefix-stable function of the seed
 pub fn restarts_case(tier: Tier) -> impl Strategy<Value = Case> {
     let nmax = tier.pick(60, 200);
-    let init_kind = prop_oneof![4 => Just(0u8), 4 => Just(1u8), 1 => Just(3u8)];
+    let init_kind = prop_oneof![4 => Just(0u8), 4 => Just(1u8), 2 => Just(2u8), 1 => Just(3u8)];
     (
         data_strategy(nmax),
         any::<u16>(),
@@ -322,18 +325,19 @@ pub fn restarts_case(tier: Tier) -> impl Strategy<Value = Case> {
         prop_oneof![3 => 1u64..=12, 2 => Just(300u64)],
         tol_strategy(),
         1usize..=4,
-        (any::<u64>(), layout_strategy()),
+        (any::<u64>(), layout_strategy(), 1usize..=8),
     )
-        .prop_map(|(data, kk, metric, ik, raw, max_iter, tol, n_runs, (seed, c0_layout))| {
+        .prop_map(|(data, kk, metric, ik, raw, max_iter, tol, n_runs, (seed, c0_layout, incr_runs))| {
             let n = data.rows.len();
             let p = data.rows[0].len();
             let k = k_of(kk, n);
             let init = match ik {
                 0 => Init::Random,
                 1 => Init::PlusPlus,
+                2 => Init::Para,
                 _ => Init::Precomputed(build_c0(&raw, &data.rows, k, p)),
             };
-            Case { data, k, metric, init, max_iter, tol, n_runs, seed, queries: vec![], c0_layout, query_layout: Layout::RowMajor }
+            Case { data, k, metric, init, max_iter, tol, n_runs, seed, queries: vec![], c0_layout, query_layout: Layout::RowMajor, incr_runs }
         })
 }
 
@@ -377,7 +381,7 @@ pub fn para_box_case(_tier: Tier) -> impl Strategy<Value = Case> {
                 })
                 .collect();
             let data = Data { kind: DataKind::DispersedOffOrigin, f32_, scale_exp: 0, offset: vec![], layout, rows };
-            Case { data, k, metric, init: Init::Para, max_iter, tol, n_runs, seed, queries: cut(q, p), c0_layout: Layout::RowMajor, query_layout }
+            Case { data, k, metric, init: Init::Para, max_iter, tol, n_runs, seed, queries: cut(q, p), c0_layout: Layout::RowMajor, query_layout, incr_runs: 0 }
         })
 }
 
